@@ -2,6 +2,7 @@
 From Coq Require Import ZArith List Bool.
 From HV Require Import Prelude.Py Prelude.State Spec.DynTable Spec.SDecoder.
 From HV Require Import Model.Data Model.Table Model.Decoder Model.Encoder Model.Rel Model.RelEnc.
+From HV Require Import Model.Histories.
 From HV Require Import Proofs.Table Proofs.EncoderMeaning Proofs.Lockstep.
 Import ListNotations.
 Open Scope Z_scope.
@@ -36,22 +37,7 @@ Proof. exact encode_decodes_spec. Qed.
 (** Every history: a fresh Encoder, any sequence of table-size settings and blocks; an RFC
     decoder with permitted maximum [Lim] (admitting every size set) that processes the blocks
     in order recovers every header list. *)
-Fixpoint spec_consumes (c : ctx) (e : encoder) (ops : list eop) : Prop :=
-  match ops with
-  | [] => True
-  | ESetSize v :: r => spec_consumes c (snd (estep e (ESetSize v))) r
-  | EEncode hs h :: r =>
-      match estep e (EEncode hs h) with
-      | (Ok w, e') => exists fs c', decode KLIM c w false = SOk (fs, c') /\
-                                    map nv_of_sfield fs = map nv_of_field hs /\ spec_consumes c' e' r
-      | (Err _, _) => False
-      end
-  end.
-Definition op_ok (Lim LL : Z) (o : eop) : Prop :=
-  match o with
-  | ESetSize v => 0 <= v <= Lim
-  | EEncode hs _ => Forall field_sane hs /\ fields_size hs <= LL
-  end.
+(** [spec_consumes], [op_ok]: Model/Histories.v *)
 Theorem C03_every_history : forall Lim LL ops, 4096 <= Lim < BIG -> Forall (op_ok Lim LL) ops ->
   spec_consumes {| dyn := []; size := 4096; limit := Lim; list_limit := LL |} Encoder_init ops.
 Proof. exact spec_consumes_history. Qed.
